@@ -228,6 +228,37 @@ def gen_spec(rng, audit_types=("CARD_COMPARISON", "ONEAUDIT", "POLLING"), n_cont
             "mvrs": mvrs, "sample_nums": sn, "sn_mode": rng.choice(("list_order", "reverse", "shuffled", "contest_first")), "sn_step": rng.choice((1, 1, 17, 0.5)), **({"sn_base": 2 ** 255 + 12345, "sn_step": 2 ** 128} if rng.random() < 0.2 else {})}
 
 
+def force_uniform_pool(rng, es):
+    """Stratum: a pooled ONEAudit batch in which every card casts the same valid vote for the winner of a super-majority
+    contest with a non-representable assorter bound (f = 0.6, 2/3): the batch mean is then a quotient of floats that all
+    equal the upper bound (the regime where a mean can round above it), and the manual records score lower."""
+    cid = next(iter(es["contests"]))
+    con = es["contests"][cid]
+    con.update(kind="supermajority", share=rng.choice((0.6, 2 / 3, 0.6, 0.7)), audit_type="ONEAUDIT", n_winners=1,
+               winner=[con["candidates"][0]])
+    con.pop("assertion_json", None)
+    if con.get("bet") == "fixed_bet":
+        con["test_kwargs"] = {"lam": 0.5}
+    pool = es["cards"][0]["tally_pool"]
+    k = 0
+    for cd in es["cards"]:
+        if cd["tally_pool"] == pool:
+            cd["pool"] = True
+            cd["votes"][cid] = {con["winner"][0]: rng.choice(TRUTHY)}
+            k += 1
+            if str(es["cards"].index(cd)) not in es["mvrs"] and rng.random() < 0.6:
+                es["mvrs"][str(es["cards"].index(cd))] = {"kind": "votes", "votes": {} if rng.random() < 0.5 else {cid: {}}}
+        elif cid in cd["votes"] and rng.random() < 0.5:
+            cd["votes"][cid] = {con["candidates"][-1]: 1}
+    con["cards"] = None if con["cards"] is None else max(con["cards"], sum(1 for cd in es["cards"] if cid in cd["votes"]))
+    es["use_style"] = True
+    for c2 in es["contests"].values():
+        if c2["audit_type"] == "POLLING":
+            c2["audit_type"] = "CARD_COMPARISON"
+            c2["test"], c2["estim"], c2["bet"], c2["test_kwargs"] = "alpha_mart", "shrink_trunc", None, {"d": 10, "f": 0}
+    return es
+
+
 # ---- reference assorters (written from the definitions; cross-checked by C02 / C14) ---------------------------
 def ref_assort(con, asn_desc, votes_for_contest):
     """Assorter value of a card for one assertion.  votes_for_contest: the card's marks in the contest or None."""
